@@ -2,6 +2,7 @@ import QR.Proofs.Raster
 import QR.Proofs.SourceTieC12
 import QR.Proofs.Pinned
 import QR.Proofs.SourceTieB5
+import QR.Proofs.SourceTieT5
 /-
 C12 - raster geometry (image/base.py, pure.py, pil.py).  Both raster back ends produce a square of
 `(modules + 2*border) * box_size` pixels in which pixel (x, y) has the fill colour iff module
@@ -123,6 +124,33 @@ theorem C12_source_pypngRows_dims (M : Mods) (width border boxSize : Nat) (hlen 
   QR.SourceTieB.pypngRows_dims M width border boxSize hlen hrow
 
 end SourceTieT2
+
+
+/-! ### Source tie, part 2 (T2 plugins `tools/t2_fragments/`): (second plugin round, `frag_c.py`) the hand-written Model equals the definitions translated from
+    /repo's current Python AST (`QR.Gen.Code`, regenerated on every run). Restated verbatim from `QR/Proofs/SourceTie*.lean`. -/
+section SourceTieT2b
+open QR.Model QR.Gen QR.Gen.Code QR.SourceTieT
+
+/-- **mode** `Model.pilMode` applied to the lower-cased colours (keyword argument or default) is the first argument of
+    `Image.new` in the source; `lower` is Python's `str.lower`, arbitrary here -/
+theorem C12_source_pilMode_src {α : Type} (lower : String → String) (kwBack kwFill : Option (pil_Val α)) :
+    pil_new_image_mode lower kwBack kwFill =
+      pilMode (pilStrOf ((kwFill.getD (.str "black")).lowered lower)) (pilStrOf ((kwBack.getD (.str "white")).lowered lower)) :=
+  QR.SourceTieT.pilMode_src lower kwBack kwFill
+
+/-- the colours handed on (no Model counterpart; characterisation by mode): in mode "1" fill 0 on background 255, in mode
+    "RGBA" the (lower-cased) fill on background `None`, in mode "RGB" the (lower-cased) colours themselves; and the mode
+    is one of the three -/
+theorem C12_source_pilNewImageColours_src {α : Type} (lower : String → String) (kwBack kwFill : Option (pil_Val α)) :
+    let fill := (kwFill.getD (.str "black")).lowered lower
+    let back := (kwBack.getD (.str "white")).lowered lower
+    let mode := pil_new_image_mode lower kwBack kwFill
+    (mode = "1" ∧ pil_new_image_fill lower kwBack kwFill = .int 0 ∧ pil_new_image_back lower kwBack kwFill = .int 255) ∨
+    (mode = "RGBA" ∧ pil_new_image_fill lower kwBack kwFill = fill ∧ pil_new_image_back lower kwBack kwFill = .none) ∨
+    (mode = "RGB" ∧ pil_new_image_fill lower kwBack kwFill = fill ∧ pil_new_image_back lower kwBack kwFill = back) :=
+  QR.SourceTieT.pilNewImageColours_src lower kwBack kwFill
+
+end SourceTieT2b
 
 /-- the Python functions this property's model mirrors have, in /repo's current working tree, exactly the normalised
     ASTs the model was written and validated against (fingerprints regenerated by T1 on every run) -/
